@@ -106,24 +106,24 @@ def entries(tier: str, seed: int = 0) -> list[Entry]:
             out.append(Entry(Config('MPFloat', {'p': p}), probe=3))
         out.append(Entry(Config('MPFloat', {'p': 5}), pairs='mul', half_b=True, fma_modes=FOUR, fma_nearest=('RNE',)))
         out.append(Entry(Config('MPFloat', {'p': 6}), pairs='mul', triples=False))
+        five = tuple(dict.fromkeys(FOUR + (rot,)))
         for p, emin in ((2, -2), (3, -2)):
-            out.append(Entry(Config('MPSFloat', {'p': p, 'emin': emin})))
-        out.append(Entry(Config('MPSFloat', {'p': 4, 'emin': -2}), wide_modes=tuple(dict.fromkeys(FOUR + (rot,))),
-                         fma_modes=tuple(dict.fromkeys(FOUR + (rot,)))))
+            out.append(Entry(Config('MPSFloat', {'p': p, 'emin': emin}), fma_modes=five))
+        out.append(Entry(Config('MPSFloat', {'p': 4, 'emin': -2}), wide_modes=five, fma_modes=five))
         for es, nbits in ((2, 5), (3, 6)):
-            out.append(Entry(Config('IEEE', {'es': es, 'nbits': nbits})))
+            out.append(Entry(Config('IEEE', {'es': es, 'nbits': nbits}), fma_modes=five))
     else:
         for p in (2, 3, 4, 5):
             out.append(Entry(Config('MPFloat', {'p': p}), probe=4))
-        out.append(Entry(Config('MPFloat', {'p': 6}), half_b=True, fma_modes=FOUR))
+        out.append(Entry(Config('MPFloat', {'p': 6}), half_b=True, wide_modes=FOUR, fma_modes=FOUR, fma_nearest=('RNE',)))
         for p in (7, 8):
             out.append(Entry(Config('MPFloat', {'p': p}), pairs='mul', triples=False))
         for p, emin in ((2, -2), (3, -2), (4, -2), (3, -5), (4, -5)):
             out.append(Entry(Config('MPSFloat', {'p': p, 'emin': emin})))
-        out.append(Entry(Config('MPSFloat', {'p': 5, 'emin': -2}), fma_modes=FOUR))
+        out.append(Entry(Config('MPSFloat', {'p': 5, 'emin': -2}), wide_modes=FOUR, fma_modes=FOUR))
         for es, nbits in ((2, 5), (3, 6), (3, 7), (4, 6), (2, 7), (4, 8)):
             out.append(Entry(Config('IEEE', {'es': es, 'nbits': nbits})))
-        out.append(Entry(Config('IEEE', {'es': 3, 'nbits': 8}), fma_modes=FOUR))
+        out.append(Entry(Config('IEEE', {'es': 3, 'nbits': 8}), wide_modes=FOUR, fma_modes=FOUR))
     out.append(Entry(Config('IEEE', {'es': 3, 'nbits': 6}), ovf='SATURATE', only_ideal=True))
     out.append(Entry(Config('MPFixed', {'nmin': -3}), only_ideal=True))
     for ovf in ('OVERFLOW', 'SATURATE', 'WRAP'):
@@ -299,6 +299,17 @@ class Check(BaseCheck):
         super().__init__(tier, seed)
         self.entries = entries(tier, seed)
 
+    def selfcheck(self):
+        """vacuity canary on the model side: 3/2 * 5/4 at p = 3 must be a judged, inexact case"""
+        E = Env(Entry(Config('MPFloat', {'p': 3})), 'RNE')
+        reason, adm, err = self.precondition(E, 'fast_2mul', [Q(3, 2), Q(5, 4)], Q(15, 8))
+        assert reason is None and adm == [Q(2)] and err == Q(-1, 8), (reason, adm, err)
+        r = ShardResult()
+        self.check_eft(r, E, 'fast_2mul', ('3/2', '5/4'), 'judge')
+        assert r.counts['transitions'] == 1 and r.counts['nontrivial'] == 1, dict(r.counts)
+        reason, _, _ = self.precondition(E, 'fast_2sum', [Q(1), Q(2)], Q(3))
+        assert reason == 'unordered-magnitudes'
+
     # ---- space -----------------------------------------------------------------------------------
     def bounds(self):
         return {'contexts': [e.text() for e in self.entries],
@@ -310,7 +321,7 @@ class Check(BaseCheck):
                 'quick_extra': 'seed-rotated 1/16 of the MPFloat(6) pairs under RNE' if self.tier == 'quick' else None}
 
     def cube_limit(self):
-        return 30 if self.tier == 'quick' else 58
+        return 30 if self.tier == 'quick' else 40
 
     def fn_runs(self, entry: Entry, spec: R.Spec, fn: str, mode: str):
         """-> None (not run), 'judge', or 'probe:<reason>' (run, recorded, never judged)"""
@@ -419,8 +430,8 @@ class Check(BaseCheck):
             return None, adm, exact - adm[0]
         assert len(adm) == 1
         err = exact - adm[0]
-        if not R.is_member(spec, xq(err)):
-            return 'error-term-not-representable', adm, err
+        if fn != 'classic_2fma' and not R.is_member(spec, xq(err)):
+            return 'error-term-not-representable', adm, err      # classic_2fma: two error terms, see below
         if E.bounded:
             top = min(spec.maxpos, -spec.maxneg)
             if m.get('headroom') == 'split':
